@@ -413,12 +413,31 @@ def _rig_job(snapname):
     if snapname == SNAPS[0]:
         grid = [0.0, 0.005, 0.015, 0.03, 0.045, 0.06, 0.08, 0.1, 0.125, 0.15, 0.2]
         p0 = fac.pumps[0] if fac.pumps else None
-        for verb in (b"GETWC", b"REQRM", b"STATU", b"APING"):
-            for d in grid:
+        n_bg = 0
+        stalled = False
+        for verb, lossy in ((b"GETWC", False), (b"REQRM", False), (b"STATU", False), (b"APING", False),
+                            (b"GETWC", True), (b"STATU", True), (b"REQRM", True)):
+            # lossy: that background request is lost once, so it occupies the protocol lock for a whole time-out (and
+            # pause) while the command waits behind it
+            if stalled:
+                break
+            for d in (grid if not lossy else [0.05, 0.5, 3.0]):
+                if stalled:
+                    break
                 for kind in ("watercare", "pump"):
                     if kind == "pump" and p0 is None:
                         continue
                     m0 = len(rig.net.sent)
+                    if lossy:
+                        dropped = []
+
+                        def drop(data, src, verb=verb, dropped=dropped):
+                            if verb in data and not dropped:
+                                dropped.append(1)
+                                return True
+                            return False
+
+                        rig.peer.drop_request = drop
 
                     def seen():
                         for (tm, src, dst, data) in rig.net.sent[m0:]:
@@ -429,31 +448,39 @@ def _rig_job(snapname):
                         return False
 
                     if not rig.loop.run_for(400.0, seen):
-                        raise core.HarnessError(f"C13: the client never sent {verb!r} in 400 s")
+                        if n_bg == 0:
+                            raise core.HarnessError(f"C13: the client never sent {verb!r} in 400 s")
+                        note(("engine", f"after the preceding commands the client's periodic {verb.decode()} stopped for 400 s "
+                                        f"(manager state {rig.man.spa_state.name}, errors {lib.LOG.records[:1]})"), "background requests")
+                        stalled = True
+                        break
+                    n_bg += 1
                     rig.loop.run_for(d)
                     n += 1
+                    tag_l = " (lost once)" if lossy else ""
                     if kind == "watercare":
                         want = (wc.mode + 1) % 5 if isinstance(wc.mode, int) else 1
-                        cmds, wire, err = rig._command(wc.async_set_mode(want), settle=3.0)
+                        cmds, wire, err = rig._command(wc.async_set_mode(want), settle=3.0 if not lossy else 12.0)
                         if err:
-                            note(("engine", err), "watercare during " + verb.decode())
+                            note(("engine", err), "watercare during " + verb.decode() + tag_l)
                         elif rig.peer.wc_mode != want or wc.mode != want or len([c for c in cmds if c[1] == "setwc"]) != 1:
                             note(("read-back", f"watercare set to {want} {d*1000:.0f} ms after the client's own {verb.decode()} went out: "
                                                f"{len(cmds)} command(s), spa holds {rig.peer.wc_mode}, client reads {wc.mode}"),
-                                 "watercare during " + verb.decode())
+                                 "watercare during " + verb.decode() + tag_l)
                     else:
                         ud = p0._user_demand["demand"]
                         modes = [m for m in p0.modes if m != ""]
                         cur = p0.mode if p0.mode in modes else modes[0]
                         req = modes[(modes.index(cur) + 1) % len(modes)]
-                        cmds, wire, err = rig._command(p0.async_set_mode(req), settle=3.0)
+                        cmds, wire, err = rig._command(p0.async_set_mode(req), settle=3.0 if not lossy else 12.0)
                         if err:
-                            note(("engine", err), "pump during " + verb.decode())
+                            note(("engine", err), "pump during " + verb.decode() + tag_l)
                         else:
                             why = judge_set(rig, cmds, wire, ud, acc[ud].items.index(req), f"pump {p0.key} ->{req} {d*1000:.0f} ms after {verb.decode()}")
                             if why is None and p0.mode != req and req in rig.spa.accessors[p0._state_sensor.accessor.tag].items:
                                 why = ("read-back", f"pump {p0.key} set to {req} {d*1000:.0f} ms after the client's own {verb.decode()}: reads {p0.mode!r}")
-                            note(why, "pump during " + verb.decode())
+                            note(why, "pump during " + verb.decode() + tag_l)
+        rig.peer.drop_request = None
     ndev = len(fac.pumps) + len(switches)
     rig.exit()
     rig.close()
